@@ -24,7 +24,7 @@ import zlib
 from harness import core, gen, histcheck, isoapi
 
 LEAN_MODULES = ['Pycdlib.Props.C12', 'Pycdlib.Props.Tie']
-THEOREMS = ['Pycdlib.Hybrid.calc_cc_spec', 'Pycdlib.Hybrid.backup_gpt_in_padding', 'Pycdlib.Hybrid.calc_cc_tie', 'Pycdlib.Hybrid.part_covers', 'Pycdlib.Hybrid.mbr_rba', 'Pycdlib.Hybrid.end_chs_decodes', 'Pycdlib.Hybrid.start_chs_decodes',
+THEOREMS = ['Pycdlib.Hybrid.calc_cc_spec', 'Pycdlib.Hybrid.backup_gpt_in_padding', 'Pycdlib.Hybrid.calc_cc_tie', 'Pycdlib.Hybrid.part_covers', 'Pycdlib.Hybrid.mbr_rba', 'Pycdlib.Hybrid.end_chs_decodes', 'Pycdlib.Hybrid.start_chs_decodes', 'Pycdlib.Hybrid.gpt_geometry',
             'Pycdlib.crc32_tie', 'Pycdlib.crc32_table_spec', 'Pycdlib.crc32Byte_table']
 PARTIAL = {
     'mbr_shape / gpt_mirror partial': 'byte layout of MBR/GPT/APM and primary/backup mirroring are decided by the independent decoder per '
@@ -270,6 +270,16 @@ def scenario(ctx, rng, tmpdir):
         def gpt_part(a, i):
             first, last = struct.unpack_from('<QQ', a, i * 128 + 32)
             return first, last
+        # the header LBAs and the first two partitions against the model (Hybrid.gptGeo, theorem gpt_geometry)
+        if bh_off + 92 <= len(img):
+            sh2 = decode_gpt_header(img[bh_off: bh_off + 92])
+            got_geo = (ph['cur'], ph['bak'], ph['first'], ph['last'], ph['plba'], sh2['plba']) + gpt_part(arr, 0) + gpt_part(arr, 1)
+            want_geo = tuple(int(x) for x in ctx.driver.ask(['gptgeo %d %d %d %d %d %d' % (
+                len(base), h_geo, s_geo, ents['efi']['rba'], ents['efi']['cnt'], 1 if variant == 'mac' else 0)])[0].split())
+            ctx.traces_validated += 1
+            if got_geo != want_geo:
+                ctx.disagree('S-hybrid/gptgeo', 'GPT header / partition LBAs: impl=%s model=%s (image %d bytes, geometry %dx%d, %s)' % (
+                    got_geo, want_geo, len(base), h_geo, s_geo, variant), {'kind': 'scenario', 'seed': seed})
         f1, l1 = gpt_part(arr, 1)
         if (f1, l1) != (4 * ents['efi']['rba'], 4 * ents['efi']['rba'] + ents['efi']['cnt'] - 1):
             viol('C12.efi/gpt-partition', 'GPT partition 2 = (%d,%d), EFI section sector %d count %d' % (f1, l1, ents['efi']['rba'], ents['efi']['cnt']))
